@@ -35,8 +35,9 @@ Print Assumptions C02_accepted_implies_first_pass_valid.
    the root and the definitions passes the local test, in the data mode without null and with arrays.  What remains is asked
    of the document: JSON without null and without members named "$schema", "id" or "headers", and strings / arrays only where
    the type list next to a format accepts them ([fits_b]).  Re-checked on every run against the schema the code embeds.  This
-   is the pre-check-free pipeline; the first pass of spec validation adds the two Swagger pre-checks, which only add errors
-   (first pass valid => draft-4 valid is then the soundness half, decided per document by the L0 oracle). *)
+   is the pre-check-free pipeline; the first pass of spec validation runs with the two Swagger pre-checks on, which add errors
+   of their own (and under "not" / "oneOf" an added error can turn a rejection into an acceptance): the implication
+   "first pass valid => draft-4 valid" is therefore not a corollary, it is decided per document by the L0 oracle. *)
 Definition sw_oracles : option oracles := match Gen.Swagger20.swagger20_case with L (o :: _) => get_oracles o | _ => None end.
 Definition sw_in_fragment : bool :=
   match sw_oracles with
